@@ -47,7 +47,7 @@ vars == <<m, pending, cur, replies, nline, nev, reg, exp, may, cnt>>
 
 ----------------------------------------------------------------------------
 (* Line kinds.                                                              *)
-DataKinds  == {"d", "dS", "dE", "dM", "dP", "dK"}   \* plain / looks like "250 x" / "650 EV x" / "250-x" / "250+x" / "k=v"
+DataKinds  == {"d", "dS", "dE", "dM", "dP", "dK", "d0"}   \* plain / looks like "250 x" / "650 EV x" / "250-x" / "250+x" / "k=v" / empty
 BareKinds  == {"sB", "mB", "pB"}                    \* event first line consisting of the name only
 FinalKinds == {"s", "sOK", "sB"}
 MidKinds   == {"m", "mB"}
@@ -69,7 +69,8 @@ WFEvent(sh) ==
      \/ Head(sh) \in MidKinds  /\ WFRest(Tail(sh), FALSE) /\ sh[Len(sh)] = "sOK"
      \/ Head(sh) \in PlusKinds /\ WFRest(Tail(sh), TRUE)  /\ sh[Len(sh)] = "sOK"
 
-TokOf(k, serial) == IF k = "sOK" THEN 0 ELSE IF k \in BareKinds \cup {"."} THEN -1 ELSE serial
+\* (an empty data line is a line of the payload like any other: its text is the empty string, token -2)
+TokOf(k, serial) == IF k = "sOK" THEN 0 ELSE IF k = "d0" THEN -2 ELSE IF k \in BareKinds \cup {"."} THEN -1 ELSE serial
 
 MakeLines(sh, cls, name, base) ==
   [i \in 1..Len(sh) |-> [k |-> sh[i], cls |-> cls, tok |-> TokOf(sh[i], base + i),
